@@ -1,9 +1,15 @@
 #!/bin/bash
-# Build pvmodel: extract (monolithic) from the compiled Coq development, then compile with the driver.
+# Build an extracted model binary.  Usage: build.sh [NAME]   (default NAME=main)
+#   NAME=main : coq/Extract/Extract.v        -> Extraction "pvextracted.ml" handle   -> ocaml/pvmodel
+#   NAME=xyz  : coq/Extract/Extract_xyz.v    -> Extraction "pv_xyz.ml" handle        -> ocaml/pv_xyz
+# The Coq development must already be compiled (make). Monolithic extraction; driver = read-line loop.
 set -e
 cd "$(dirname "$0")"
-mkdir -p extracted _build
-( cd extracted && rm -f pvextracted.ml pvextracted.mli && coqc -Q ../../coq PV ../../coq/Extract/Extract.v >/dev/null )
-cp extracted/pvextracted.ml extracted/pvextracted.mli driver.ml _build/
-cd _build
-ocamlfind ocamlopt -w -a -o ../pvmodel pvextracted.mli pvextracted.ml driver.ml
+name="${1:-main}"
+if [ "$name" = main ]; then src=Extract.v; mod=pvextracted; out=pvmodel; else src="Extract_$name.v"; mod="pv_$name"; out="pv_$name"; fi
+work="_build/$name"
+rm -rf "$work" && mkdir -p "$work"
+( cd "$work" && coqc -Q ../../../coq PV "../../../coq/Extract/$src" >/dev/null )
+M="$(echo "${mod:0:1}" | tr 'a-z' 'A-Z')${mod:1}"
+sed "s/Pvextracted\.handle/$M.handle/" driver.ml > "$work/driver.ml"
+( cd "$work" && ocamlfind ocamlopt -w -a -o "../../$out" "$mod.mli" "$mod.ml" driver.ml )
